@@ -278,6 +278,11 @@ def h5_mutations(f0):
             muts.append(('index=-1', axis))
             muts.append(('data=int32', axis))
             muts.append(('data=str', axis))
+        if n >= 1:
+            # a coordinate appended to the matrix copy (also of a table
+            # without any entry): beyond the shape, or negative
+            muts.append(('append=dim', axis))
+            muts.append(('append=-1', axis))
         muts.append(('indptr_short', axis))
         muts.append(('indptr_long', axis))
         for cat in f0[axis + '/metadata']:
@@ -325,6 +330,20 @@ def apply_h5(f, mut):
         dim = sh[1] if arg == 'observation' else sh[0]
         idx[0] = dim if kind == 'index=dim' else -1
         _rewrite(f, arg + '/matrix/indices', idx, np.int32)
+    elif kind in ('append=dim', 'append=-1'):
+        sh = f.attrs['shape']
+        dim = sh[1] if arg == 'observation' else sh[0]
+        idx = f[arg + '/matrix/indices'][()]
+        dat = f[arg + '/matrix/data'][()]
+        ptr = f[arg + '/matrix/indptr'][()]
+        idx = np.append(idx, dim if kind == 'append=dim' else -1)
+        dat = np.append(dat, 1.0)
+        if len(ptr):
+            ptr = ptr.copy()
+            ptr[-1] += 1
+        _rewrite(f, arg + '/matrix/indices', idx.astype(np.int32), np.int32)
+        _rewrite(f, arg + '/matrix/data', dat.astype(np.float64), np.float64)
+        _rewrite(f, arg + '/matrix/indptr', ptr.astype(np.int32), np.int32)
     elif kind == 'data=int32':
         d = f[arg + '/matrix/data'][()]
         _rewrite(f, arg + '/matrix/data', d.astype(np.int32), np.int32)
